@@ -521,7 +521,14 @@ class C16(common.Prop):
             else:
                 ln = rng.choice([0, 1, 1, 2, n, rng.randint(0, 2 * n)])
                 mode = rng.random()
-                if mode < 0.5:
+                if mode < 0.15 and n >= 3:
+                    # as long as the body and pinned at both ends, but not the identity: a shuffle / repeats in between
+                    mid = list(range(1, n - 1))
+                    rng.shuffle(mid)
+                    if rng.random() < 0.4:
+                        mid = [rng.randrange(n) for _ in mid]
+                    idx = [0] + mid + [n - 1]
+                elif mode < 0.5:
                     idx = [rng.randrange(n) for _ in range(ln)]
                 elif mode < 0.7:
                     idx = sorted(rng.sample(range(n), min(ln, n)), reverse=rng.random() < 0.5)
